@@ -23,7 +23,7 @@ ASSUMPTIONS = [
     "no analytic one exists, noise floor 1e-10: error samples below 1e-9 are not used)",
     "implicit / constrained integrators run with solver tolerances tightened through the public kwargs",
 ]
-REQUIRED = {"orders_measured": 60, "coefficient_sets": 50}
+REQUIRED = {"orders_measured": 60, "coefficient_sets": 50, "orders_measured_after_metric_reassignment": 30}
 BUDGET_S = {"quick": 200, "thorough": 1800}
 NOISE = 1e-9
 
@@ -97,49 +97,51 @@ def run_case(case, obs) -> None:  # noqa: C901, PLR0912, PLR0915
     rng = np.random.default_rng([abs(int(s)) for s in case["seed"]])
     m = zoo.Model(spec)
     iname_sys = type(m.system).__name__
-    orders, eorders = [], []
-    closer_checks = 0
-    for _state in range(5):
-        q, p = m.random_point(rng, scale=0.8)
-        eps0 = case["frac"] / intgen.frequency(m, q)
-        errs, eerrs = [], []
-        try:
-            h0 = m.ref_h(q, p)
-            for j in range(3):
-                eps = eps0 / 2**j
-                ispec["step_size"] = eps
-                integ = zoo.make_integrator(m, ispec)
-                st = integ.step(m.state(q, p, 1))
-                zq, zp = intgen.exact_flow(m, q, p, eps)
-                scale = 1 + max(np.max(np.abs(zq)), np.max(np.abs(zp)))
-                err = max(np.max(np.abs(st.pos - zq)), np.max(np.abs(st.mom - zp))) / scale
-                errs.append(err)
-                eerrs.append(abs(m.ref_h(st.pos, st.mom) - h0) / (1 + abs(h0)))
-                if j == 0:
-                    z2q, z2p = intgen.exact_flow(m, q, p, 2 * eps)
-                    zhq, zhp = intgen.exact_flow(m, q, p, eps / 2)
-                    e2 = max(np.max(np.abs(st.pos - z2q)), np.max(np.abs(st.mom - z2p))) / scale
-                    eh = max(np.max(np.abs(st.pos - zhq)), np.max(np.abs(st.mom - zhp))) / scale
-                    closer_checks += 1
-                    obs.count("closer_to_own_time_checks")
-                    if not (err < e2 and err < eh):
-                        obs.violation(f"wrong-time-advance:{type(integ).__name__}:{iname_sys}",
-                                      f"one step of size eps={eps:.4g} is at distance {err:.3e} from flow(eps) but {e2:.3e} from "
-                                      f"flow(2 eps) and {eh:.3e} from flow(eps/2); sys={spec} int={ispec}")
-        except IntegratorError as e:
-            obs.count(f"skipped.{type(e).__name__}")
-            continue
-        except FloatingPointError:
-            obs.inconc("reference-ode-failed")
-            continue
-        for a, b in zip(errs, errs[1:]):
-            if a > NOISE and b > NOISE:
-                orders.append(float(np.log2(a / b)))
-        for a, b in zip(eerrs, eerrs[1:]):
-            if a > NOISE and b > NOISE:
-                eorders.append(float(np.log2(a / b)))
+    def measure(n_states, label, shrink=1.0):
+        orders, eorders = [], []
+        for _state in range(n_states):
+            q, p = m.random_point(rng, scale=0.8)
+            eps0 = shrink * case["frac"] / intgen.frequency(m, q)
+            errs, eerrs = [], []
+            try:
+                h0 = m.ref_h(q, p)
+                for j in range(3):
+                    eps = eps0 / 2**j
+                    ispec["step_size"] = eps
+                    integ = zoo.make_integrator(m, ispec)
+                    st = integ.step(m.state(q, p, 1))
+                    zq, zp = intgen.exact_flow(m, q, p, eps)
+                    scale = 1 + max(np.max(np.abs(zq)), np.max(np.abs(zp)))
+                    err = max(np.max(np.abs(st.pos - zq)), np.max(np.abs(st.mom - zp))) / scale
+                    errs.append(err)
+                    eerrs.append(abs(m.ref_h(st.pos, st.mom) - h0) / (1 + abs(h0)))
+                    if j == 0:
+                        z2q, z2p = intgen.exact_flow(m, q, p, 2 * eps)
+                        zhq, zhp = intgen.exact_flow(m, q, p, eps / 2)
+                        e2 = max(np.max(np.abs(st.pos - z2q)), np.max(np.abs(st.mom - z2p))) / scale
+                        eh = max(np.max(np.abs(st.pos - zhq)), np.max(np.abs(st.mom - zhp))) / scale
+                        obs.count("closer_to_own_time_checks")
+                        if not (err < e2 and err < eh):
+                            obs.violation(f"wrong-time-advance:{type(integ).__name__}:{iname_sys}{label}",
+                                          f"one step of size eps={eps:.4g} is at distance {err:.3e} from flow(eps) but {e2:.3e} from "
+                                          f"flow(2 eps) and {eh:.3e} from flow(eps/2); sys={spec} int={ispec}")
+            except IntegratorError as e:
+                obs.count(f"skipped.{type(e).__name__}")
+                continue
+            except FloatingPointError:
+                obs.inconc("reference-ode-failed")
+                continue
+            for a, b in zip(errs, errs[1:]):
+                if a > NOISE and b > NOISE:
+                    orders.append(float(np.log2(a / b)))
+            for a, b in zip(eerrs, eerrs[1:]):
+                if a > NOISE and b > NOISE:
+                    eorders.append(float(np.log2(a / b)))
+        return orders, eorders
+
     integ = zoo.make_integrator(m, {**ispec, "step_size": 0.1})
     iname = type(integ).__name__
+    orders, eorders = measure(5, "")
     if len(orders) < 4:
         obs.inconc("too-few-error-samples-above-noise")
         return
@@ -158,6 +160,28 @@ def run_case(case, obs) -> None:  # noqa: C901, PLR0912, PLR0915
         if eorder < 1.7:
             obs.violation(f"energy-error-order:{iname}:{iname_sys}",
                           f"median observed order of the one-step energy error is {eorder:.2f} (< 1.7); sys={spec} int={ispec}")
+    # the metric of a live, already used system is reassigned by the metric adapters at the end of warm-up: steps must
+    # then follow the flow of the *new* Hamiltonian
+    if spec["sys"] in zoo.TRACTABLE and case.get("reassign", True):
+        new_kind = str(rng.choice(["diag", "dense", "scaled", "chol_lower", "eig"]))
+        new_arg, new_dense = zoo.const_metric(new_kind, m.dim, rng)
+        m.system.metric = new_arg
+        m.metric_dense = new_dense
+        label = ":after-metric-reassignment"
+        o2, e2 = measure(5, label, 0.5)  # finer steps: fewer states are pre-asymptotic, the estimate is less noisy
+        if len(o2) >= 4:
+            obs.count("orders_measured_after_metric_reassignment")
+            order2 = float(np.median(o2))
+            obs.maxi(f"neg_local_order_after_reassignment.{iname}", -order2, {"sys": spec["sys"], "int": ispec})
+            if order2 < 2.5:
+                obs.violation(f"local-error-order:{iname}:{iname_sys}{label}",
+                              f"after system.metric was reassigned ({new_kind}) on a system that had already been stepped, the median "
+                              f"observed order of the one-step error against the flow of the new Hamiltonian is {order2:.2f}; samples "
+                              f"{np.round(o2, 2).tolist()}; sys={spec} int={ispec}")
+            if len(e2) >= 4 and float(np.median(e2)) < 1.7:
+                obs.violation(f"energy-error-order:{iname}:{iname_sys}{label}",
+                              f"after system.metric was reassigned the median order of the one-step energy error is {float(np.median(e2)):.2f}; "
+                              f"sys={spec} int={ispec}")
     obs.token(spec["sys"], spec.get("metric", spec.get("constr", "-")), ispec["int"], intgen.stages(ispec),
               ispec.get("solver", "-"), ispec.get("n_inner_step", 0))
-    obs.sample({"sys": spec["sys"], "int": ispec, "order": order, "errs_last_state": errs})
+    obs.sample({"sys": spec["sys"], "int": ispec, "order": order, "samples": np.round(orders, 2).tolist()[:6]})
